@@ -180,7 +180,10 @@ func (s *MonitoredItemService) CreateMonitoredItems(sc *uasc.SecureChannel, r ua
 	}
 
 	sess := s.SubService.srv.Session(req.RequestHeader)
-	if sub.Session.AuthTokenID.String() != sess.AuthTokenID.String() {
+	if sess == nil {
+		return nil, ua.StatusBadSessionIDInvalid
+	}
+	if sub.Session == nil || sub.Session.AuthTokenID.String() != sess.AuthTokenID.String() {
 		return nil, errors.New("not your subscription, bro")
 	}
 
@@ -279,12 +282,13 @@ func (s *MonitoredItemService) SetMonitoringMode(sc *uasc.SecureChannel, r ua.Re
 		id := req.MonitoredItemIDs[i]
 		item, ok := s.Items[id]
 
-		if item.Sub.Session.AuthTokenID.String() != sess.AuthTokenID.String() {
-			results[i] = ua.StatusBadSessionIDInvalid
-		}
-
 		if !ok {
 			results[i] = ua.StatusBadMonitoredItemIDInvalid
+			continue
+		}
+
+		if sess == nil || item.Sub.Session == nil || item.Sub.Session.AuthTokenID.String() != sess.AuthTokenID.String() {
+			results[i] = ua.StatusBadSessionIDInvalid
 			continue
 		}
 		item.Mode = req.MonitoringMode
@@ -341,10 +345,12 @@ func (s *MonitoredItemService) DeleteMonitoredItems(sc *uasc.SecureChannel, r ua
 		item, ok := s.Items[id]
 		if !ok {
 			results[i] = ua.StatusBadMonitoredItemIDInvalid
+			continue
 		}
 
-		if item.Sub.Session.AuthTokenID.String() != sess.AuthTokenID.String() {
+		if sess == nil || item.Sub.Session == nil || item.Sub.Session.AuthTokenID.String() != sess.AuthTokenID.String() {
 			results[i] = ua.StatusBadSessionIDInvalid
+			continue
 		}
 
 		// this function gets the lock so we need to do it in the background so it can happen after our lock is released.
